@@ -2,6 +2,7 @@
 ; 'it is invalid for any of the stop colors to itself be a gradient [non-premultiplied], or for any stop offset to be less than or
 ;  equal to a previous offset, or outside the range [0, 1]'.
 ; include: colors
+; requires-types: render.Stop
 (define-sort NRegs () (Array (_ BitVec 64) (_ FloatingPoint 8 24)))
 (define-fun grad.cidx ((base (_ BitVec 8)) (k (_ BitVec 8))) (_ BitVec 64) ((_ zero_extend 56) (bvand (bvadd base k) #x3f)))
 (define-fun grad.off ((nreg NRegs) (nbase (_ BitVec 8)) (k (_ BitVec 8))) (_ FloatingPoint 8 24) (select nreg (grad.cidx nbase k)))
@@ -19,3 +20,10 @@
 (assert (forall ((creg!a Pal) (nreg!a NRegs) (cb!a (_ BitVec 8)) (nb!a (_ BitVec 8)) (n!a (_ BitVec 8)))
   (! (= (grad.valid creg!a nreg!a cb!a nb!a n!a) (and (grad.validUpTo creg!a nreg!a cb!a nb!a n!a) (bvuge n!a #x02)))
      :pattern ((grad.valid creg!a nreg!a cb!a nb!a n!a)))))
+
+; the stop the Renderer hands to its Gradient for stop k: offset widened to float64, 8 bit channels widened to 16 bit (x * 0x101)
+(define-fun grad.w16 ((u (_ BitVec 8))) (_ BitVec 16) (bvmul ((_ zero_extend 8) u) #x0101))
+(define-fun grad.stop ((creg Pal) (nreg NRegs) (cb (_ BitVec 8)) (nb (_ BitVec 8)) (k (_ BitVec 8))) render.Stop
+  (let ((c (select creg (grad.cidx cb k))))
+    (mk-render.Stop ((_ to_fp 11 53) RNE (grad.off nreg nb k))
+                    (mk-color.RGBA64 (grad.w16 (color.RGBA.R c)) (grad.w16 (color.RGBA.G c)) (grad.w16 (color.RGBA.B c)) (grad.w16 (color.RGBA.A c))))))
